@@ -69,9 +69,13 @@ class ImplWorld(ImplExt):
         self.kinds = []
         self.trace = []
 
-    def _register(self, obs, kind):
+    def _register(self, obs, kind, subscribed=True):
         self.heap.append(obs)
         self.kinds.append(kind)
+        # the harness's own account of who is subscribed (from the events alone, never read from the dispatcher)
+        if not hasattr(self, "sub_state") or len(self.sub_state) != len(self.heap) - 1:
+            self.sub_state = [True] * (len(self.heap) - 1)
+        self.sub_state.append(subscribed)
         if isinstance(obs, Recorder):
             obs.rid = len(self.heap) - 1
             obs.trace = self.trace
@@ -93,7 +97,7 @@ class ImplWorld(ImplExt):
             obs = KINDS[kind](self.dispatcher, subscribe=False)
         except Exception:  # pylint: disable=broad-except
             return "raise"
-        return str(self._register(obs, kind))
+        return str(self._register(obs, kind, subscribed=False))
 
     def cmd_cog(self, ts):
         kind = ts[0]
@@ -126,13 +130,15 @@ class ImplWorld(ImplExt):
             self.dispatcher.unsubscribe(self.heap[i])
         except ValueError:
             return "raise"
+        self.sub_state[i] = False
         return "ok"
 
     def cmd_resub(self, ts):
         i = int(ts[0])
-        if i >= len(self.heap) or any(o is self.heap[i] for o in self.dispatcher.subscribers):
+        if i >= len(self.heap) or self.sub_state[i]:
             return "raise"  # double subscription is outside the event alphabet (DESIGN C10)
         self.dispatcher.subscribe(self.heap[i])
+        self.sub_state[i] = True
         return "ok"
 
     def fmt_obs(self, i) -> str:
@@ -530,7 +536,8 @@ class ImplFeat(ImplViews):
             for ft, arr in o.features.items())
         if kind == "composite":
             parts = " ".join(str(self._fid(p)) for p in o.feature_observers)
-            return f"{i}:composite({parts}) {cols}"
+            names = " ".join(FT_NAME[ft] + "=" + ",".join(ns) for ft, ns in o.column_names.items())
+            return f"{i}:composite({parts}) {cols} names {names}"
         return f"{i}:{kind} {cols}"
 
     def cmd_fsnap(self, ts):
